@@ -439,7 +439,7 @@ def shrink_item(item, rerun_case):
     mode = item["mode"]
     if mode == "c03e2e":
         return shrink_e2e(item, rerun_case)
-    if mode in ("c04cli", "c04os", "c19cli", "c04ev", "c03fig"):
+    if mode in ("c04cli", "c04os", "c19cli", "c04ev", "c03fig", "c04cal"):
         return item          # already small; their tokens are not those of a loop case
 
     def fails(case_line):
@@ -874,3 +874,37 @@ def fig_stream(name, rng, count):
     return Stream(name, "c03fig", cases, nontrivial=nt, crate="hx-loop", drv="loop",
                   describe="Stats.sample_count / iter_count of a context holding m samples of size s (stats_from_samples), "
                            "incl. s*m >= 2^32: iters = s*m as u64")
+
+
+# ---------------------------------------------------------------------------
+# C04 end to end: the time origin and the first-use calibration of the timer overheads
+# ---------------------------------------------------------------------------
+
+def calib_stream(name):
+    """Fresh processes of hx-loop-e2e on the virtual clock with an auto-step per timestamp read and NO overhead
+    override (`calib=1`): the first benchmark of the process runs the real `Timer::bench_overheads` calibration,
+    whose 800 reads advance the clock.  The rounds must be the least k of the rule with the elapsed time measured
+    from just before the first sample."""
+    cases = []
+
+    def case(extra, n="-", calib=True, astep=1_000_000, cost=100_000_000, bench="vext_plain", via="cli"):
+        return (f"bench={bench} via={via} mode=b n={n} s=1 threads=1 {extra} vcost={cost} astep={astep}"
+                + (" calib=1" if calib else "") + " evlog=1")
+    for calib in (True, False):
+        # the calibration takes 800 reads x 1 us = 0.8 ms; a round 101-102 us
+        cases.append(case("mins=0.0005", n=1, calib=calib))     # floor below the calibration time
+        cases.append(case("mins=0.0002", n=2, calib=calib))
+        cases.append(case("mins=0.002", n=1, calib=calib))      # floor above it
+        cases.append(case("maxs=0.0005", calib=calib))          # ceiling below the calibration time
+        cases.append(case("maxs=0.003", calib=calib))
+        cases.append(case("mins=0.0009 maxs=0.0006", n=1, calib=calib))
+        cases.append(case("mins=0.00005", n=1, calib=calib, astep=100_000, cost=10_000_000))   # 80 us calibration
+        cases.append(case("maxs=0.0005 skipx=1", calib=calib))  # skip_ext_time: no origin is read at all
+    cases.append(case("mins=0.0005 tvia=env", n=1, bench="vskip_attr", via="cli") .replace("vcost", "cskip=false vcost"))
+
+    def nt(case, model_line):
+        return "calib=1" in case and "sizes=" in model_line
+    return Stream(name, "c04cal", cases, compare=compare, nontrivial=nt, model_input=model_input, crate="hx-loop", drv="loop",
+                  impl_timeout=600,
+                  describe="fresh process, real overhead calibration under the auto-stepping virtual clock: rounds (from the event log) "
+                           "vs the rule with the elapsed time measured from just before the first sample")
